@@ -269,7 +269,8 @@ Definition end_implicit_mapping (mk : marker) : M unit :=
   s <- get ;;
   match sc_ifms s with
   | ImInside :: r =>
-      put (set_ifms (ImPossible :: r) (set_fms false s)) ;;; push_tok (span_empty mk, TFlowMappingEnd)
+      put (set_ifms (ImPossible :: r) s) ;;; push_tok (span_empty mk, TFlowMappingEnd)
+  | ImInsideExplicitKey :: r => put (set_ifms (ImPossible :: r) s)
   | _ => ret tt
   end.
 
